@@ -149,7 +149,7 @@ def eff : BInstr → Eff
   | .clearMark s => .clearMark s
   | .debug => .simple 0 0
   | .createClosure => .simple 0 1
-  | .assign => .simple 2 0
+  | .assign => .simple 2 1       -- pops target and value, leaves the assigned value (after fix C04-03)
   | .popScopeXfer => .xfer
   | .prepareCall n => .prepareCall n
 
